@@ -63,13 +63,31 @@ inductive TestObj
   | unit (module cls method : Str)                 -- a `unittest.TestCase`: id = module.cls.method
   | sub (module cls method desc : Str)             -- a failing subtest of that test: id = … ++ " " ++ desc
   | startup (module : Str)                         -- a `StartUpFailure`
+  | doctest (dotted : Str)                         -- a `doctest.DocTestCase`: the dotted name of its doctest
   deriving Repr
+
+/-- `str.split('.')` -/
+def splitDotsAux : Str → Str → List Str
+  | [], cur => [cur.reverse]
+  | c :: rest, cur => if c = 46 then cur.reverse :: splitDotsAux rest [] else splitDotsAux rest (c :: cur)
+
+def splitDots (s : Str) : List Str := splitDotsAux s []
+
+/-- `'.'.join(parts)` -/
+def joinDots : List Str → Str
+  | [] => []
+  | [p] => p
+  | p :: rest => p ++ [46] ++ joinDots rest
 
 /-- the name parsers: (suite, name, class name) -/
 def parseNames : TestObj → Str × Str × Str
   | .unit m c meth => (m ++ [46] ++ c, meth, m ++ [46] ++ c)
   | .sub m c meth desc => (m ++ [46] ++ c, meth ++ [32] ++ desc, m ++ [46] ++ c)
   | .startup m => (m, lit "Startup", m)
+  | .doctest nm =>
+    -- `parse_doc_test_case`: everything before the last dot is suite and class, the rest the name
+    let parts := splitDots nm
+    (joinDots parts.dropLast, parts.getLast?.getD [], joinDots parts.dropLast)
 
 structure Suite where
   name : Str
